@@ -22,7 +22,7 @@ RULE = ('hostile multi-MiB streams per format (valid images, every length/count/
         'distinct by (stream spec, inspector, schedule)')
 REQUIRED_CLAUSES = ['bound-under-reused-chunk-buffers', 'bound-after-chunk', 'bound-after-finish', 'clamp-reached-vmdk', 'clamp-reached-vhdx']
 ASSUMPTIONS = ['context_info is the audit accessor named by the property; len(region.data) is cross-checked against it']
-INTERPRETER_FLAGS = [[], ['-O'], [], ['-bb']]
+INTERPRETER_FLAGS = [[], ['-O'], ['-X', 'dev'], ['-bb']]
 SHARDS = {'quick': 8, 'thorough': 16}
 MIN_DISTINCT = {'quick': 300, 'thorough': 3000}
 LEVEL_TEXT = ('Exploration with a constant-bound invariant evaluated after every chunk; the workload is built so that the '
